@@ -12,7 +12,7 @@ import vlib
 
 
 class PRec:
-    __slots__ = ("text", "origin", "cls", "real", "real_status", "real_pos", "real_value", "real_tree", "valid", "exp_same",
+    __slots__ = ("text", "origin", "cls", "real", "real_status", "real_pos", "real_value", "real_tree", "valid", "exp_same", "exp_tokens",
                  "ms", "tt", "table", "model", "model_status", "model_pos", "model_value", "model_tree",
                  "model_ctr", "oracle_bad", "msg")
 
@@ -54,6 +54,7 @@ SPECIAL_VALID = [
     "v, =~ #[a] r\"x\"", "v, =~ #[cfg(any())] \"a\"", "v, S { f: =~ #[a] \"x\", .. }", "v, == #[a] 1", "v, #[a] 1", "v, #[a] \"s\"", "v, #{ #[a] \"k\": 1 }",
     "v, S { f.get(#[a] 1): 2, .. }", "v, #[a] 1..2", "v, |cl_x| #[a] true",
     "& mut w, _ {f : (move | cl_x | | ok (cl_x), b'a', - 5, | _ | true), g : 1.5, ..}", "v, |-5| true", "v, (|cl_x| |-1, 'c'| cl_x, 2)",
+    "#[a] v, 1", "#[a] (v), 1", "(#[a] (v)), _", "#[cfg(any())] (p), S { .. }", "((v)), 1", "(v), S { a: 1 }", "#[a] #[b(c = \"d\")] ((v)), 1", "(#[a] v).f, 1", "#[a] { v }, 1",
     "v, S { a: 4294967294 }", "v, Some(0: 1)", "v, E::V(0.f: 1, 1: 2)", "v, (0.0: 1)",
 ]
 # regex literals at the edges of what a regex engine takes (should the macro ever look inside one while it expands): not a regex at all,
@@ -286,6 +287,7 @@ def run_texts(texts, regex=True, join_ok=True, mac_env=None):
             d["status"], d["pos"], d["value"], d["tree"], d["valid"], d["ms"], d["tt"], d["table"], d["msg"])
         r.model = m
         r.exp_same = None
+        r.exp_tokens = d.get("tokens") if d["status"] == "ok" else None
         if m is None:
             r.model_status = None
             r.model_pos = r.model_value = r.model_tree = r.model_ctr = r.oracle_bad = None
